@@ -144,6 +144,7 @@ def cases(tier):
         yield {"region": 0, "pixel": 0.05, "kernel": ki, "hires": True}
     yield {"region": 1, "pixel": 0.025, "kernel": 0, "hires": True}
     yield {"kind": "int-dtype"}
+    yield {"kind": "mutated-params"}
 
 
 INT_DIAGRAMS = [[[0, 3], [10, 210], [5, 255]], [[2, 250]], [[0, 120], [0, 127], [7, 100]]]
@@ -177,11 +178,51 @@ def int_dtype_case(case, ctx):
     ctx.outcome("int-dtype")
 
 
+def mutated_params_case(case, ctx):
+    """The parameter dictionaries of a live imager edited IN PLACE (im.kernel_params["sigma"] = ..., the dict
+    the caller passed to the constructor, weight_params.update(...)): every later image uses the parameters the
+    imager reports at that moment."""
+    from persim import PersistenceImager
+
+    (br, pr), px = REGIONS[0], 0.5
+    gauss = [k for k in KERNELS if k[0] in ("gauss_scalar", "gauss_iso", "gauss_diag", "gauss_corr")][:12]
+    D = [POINTS[0], POINTS[7], POINTS[10]]
+    A = np.array(D, dtype=float)
+    bp = [(b, d - b) for b, d in D]
+    for i, k1 in enumerate(gauss):
+        k2 = gauss[(i + 5) % len(gauss)]
+        w1, w2 = WEIGHTS[0], WEIGHTS[1]
+        kw = imager_kwargs(k1, w1)
+        caller_kp, caller_wp = kw["kernel_params"], kw["weight_params"]
+        im = PersistenceImager(birth_range=br, pers_range=pr, pixel_size=px, **kw)
+        res = tuple(im.resolution)
+        ctx.state(("mutated-params", k1, k2))
+        steps = [("as constructed", k1, w1, lambda: None),
+                 ("im.kernel_params['sigma'] = ...", k2, w1, lambda: im.kernel_params.__setitem__("sigma", imager_kwargs(k2, w1)["kernel_params"]["sigma"])),
+                 ("im.weight_params.update(n=...)", k2, w2, lambda: im.weight_params.update(n=w2[1])),
+                 ("the caller's own dict edited", k1, w2, lambda: caller_kp.__setitem__("sigma", imager_kwargs(k1, w1)["kernel_params"]["sigma"]))]
+        for what, kern, wt, edit in steps:
+            edit()
+            if what == "the caller's own dict edited" and im.kernel_params is not caller_kp:
+                continue        # the imager keeps its own copy of the dict: the caller's edit is not supposed to reach it
+            img = np.asarray(ctx.call(im.transform, A))
+            ref = OI.image_ref(bp, oracle_kernel(kern), wt, im.birth_range[0], im.pers_range[0], px, res)
+            ctx.valid()
+            wmax = max(1.0, max(abs(OI.weight_value(wt, b, p)) for b, p in bp))
+            if img.shape != ref.shape or not np.all(np.abs(img - ref) <= TOL * wmax):
+                ctx.violation("pixel-value-after-parameter-edit", "image after [%s] is not the weighted kernel mass for the parameters the imager reports" % what,
+                              observed=img.tolist(), expected=ref.tolist(), extra={"kernel_before": k1, "kernel_now": kern, "weight_now": wt, "reported": repr(im.kernel_params)})
+    ctx.nontriv("parameters_edited_in_place")
+    ctx.outcome("mutated-params")
+
+
 def run_case(case, ctx):
     from persim import PersistenceImager
 
     if case.get("kind") == "int-dtype":
         return int_dtype_case(case, ctx)
+    if case.get("kind") == "mutated-params":
+        return mutated_params_case(case, ctx)
 
     (br, pr), px, kernel = REGIONS[case["region"]], case["pixel"], KERNELS[case["kernel"]]
     okern = oracle_kernel(kernel)
